@@ -4,7 +4,7 @@ import gen
 from props import gpcommon as G
 
 SCEN_FLAGS = {0: "removal_overlapped_insertion", 1: "wouldblock_returned", 2: "state_last_seen", 3: "splice_overlapped_other_op", 4: "linearizability_search_inconclusive",
-              5: "node_memory_recycled", 6: "pop_all_overlapped_other_op", 7: "concurrent_removers", 10: "empty_result_seen", 11: "node_freed_during_run",
+              5: "node_memory_recycled", 6: "pop_all_overlapped_other_op", 7: "concurrent_removers", 10: "empty_result_seen", 11: "node_freed_during_run", 12: "crowd_of_66_or_more_items", 44: "one_thread_interfered_with_on_every_step",
               48: "futex_sleep", 50: "delayed_store", 55: "cas_fail", 56: "mutex_block", 57: "stale_read"}
 KIND_NAMES = {v: k for k, v in gen.CDS_KINDS.items()}
 RCU_FLAVORS = ["memb", "mb", "qsbr", "bp"]
@@ -22,9 +22,36 @@ def classes_of(text, res):
     return cl
 
 
+def crowd_example(draw, tier, kind):
+    """Crowd case (one in eight, containers with an RCU scheme): the container is pre-filled with 66-130 items; one thread performs a single removal while
+    another drains the container and the schedule makes the drainer complete one removal after every step of the first thread (harass); sometimes a third
+    thread inserts or drains as well. Counting oracles (see the scenario), no linearizability search."""
+    k = gen.CDS_KINDS[kind]
+    n = draw(st.sampled_from([70, 130, 200, 390]))
+    flavor = draw(st.sampled_from(RCU_FLAVORS))
+    head = ["scen cds_" + flavor, "cfg membarrier %d" % draw(st.integers(0, 1)), "cfg kind %d" % k, "cfg sync 2", "cfg freemode 0", "cfg reuse 0", "cfg crowd %d" % n]
+    t1 = ["cdeq"] * draw(st.integers(1, 2))
+    t2 = ["drain %d" % draw(st.sampled_from([n - 2, n - 1, n, 65]))]
+    prog = ["T1 " + o for o in t1] + ["T2 " + o for o in t2]
+    nops = [0, len(t1), 1]
+    if draw(st.booleans()):
+        t3 = [draw(st.sampled_from(["cenq", "cenq", "cdeq", "drain 5"])) for _ in range(draw(st.integers(1, 4)))]
+        prog += ["T3 " + o for o in t3]; nops.append(len(t3))
+    out = []
+    for _ in range(gen.BATCH):
+        sched = gen.schedule_lines(draw, tier, len(nops), nops, ndaemons=1)
+        if draw(st.integers(0, 3)) != 0:
+            # interfere after every e-th step of the victim: e near the length of one iteration of its retry loop makes every iteration lose exactly once
+            sched.append("harass 1 %d 2 %d" % (draw(st.integers(0, len(t1) - 1)), draw(st.integers(1, 9))))
+        out.append("\n".join(head + prog + sched + ["budget %d" % (60000 + 600 * n)]) + "\n")
+    return out
+
+
 def make_example(kinds):
     def example(draw, tier):
         kind = draw(st.sampled_from(kinds))
+        if kind in ("wfs", "lfs", "rculfs", "lfq") and draw(st.integers(0, 7)) == 0:
+            return crowd_example(draw, tier, kind)
         prog, nops, sync = gen.cds_program(draw, tier, kind)
         uses_rcu = sync == 2
         flavor = draw(st.sampled_from(RCU_FLAVORS)) if uses_rcu else "memb"
